@@ -55,8 +55,9 @@ def rule_C17(ctx, rule="C17-deleg"):
     impls = [i for i in F.impls if ("LeanString" == i["self"] or "LeanString" in i["trait_args"]) and not i["self"].startswith("errors::")]
     seen = {}
     eq_family = {i["items"]["eq"] for i in impls if i["trait"] == "core::cmp::PartialEq" and "eq" in i["items"]}
+    nolt = lambda ty: re.sub(r"&'(?!static\b)\w+ ", "&", ty)
     for i in impls:
-        tr, self_ty, targs = i["trait"], i["self"], i["trait_args"]
+        tr, self_ty, targs = i["trait"], nolt(i["self"]), [nolt(x) for x in i["trait_args"]]
         key = (tr, self_ty, tuple(targs))
         if i.get("automatically_derived") and tr.startswith("core::cmp") or (i.get("automatically_derived") and tr in ("core::hash::Hash", "core::fmt::Debug")):
             ctx.ob(rule, "%s for %s" % (tr, self_ty), "no-derive", False, detail="derived (structural) impl of %s on %s compares/hashes the representation, not the text" % (tr, self_ty))
@@ -125,7 +126,7 @@ def rule_C17(ctx, rule="C17-deleg"):
             elif tr == "core::convert::AsRef" and "OsStr" in targs[0]:
                 ob(len(ds) == 1 and re.match(r"^std::ffi::(os_str::)?OsStr::new\(TEXT\(p1\)\)$", ds[0]) is not None, "as_ref = OsStr::new(as_str(self))", "AsRef<OsStr> returns %s" % ds)
     # completeness
-    have = {(i["trait"], i["self"], tuple(i["trait_args"])) for i in impls}
+    have = {(i["trait"], nolt(i["self"]), tuple(nolt(x) for x in i["trait_args"])) for i in impls}
     need = [("core::cmp::PartialEq", "LeanString", ("LeanString",)), ("core::cmp::Eq", "LeanString", ()), ("core::cmp::Ord", "LeanString", ()),
             ("core::cmp::PartialOrd", "LeanString", ("LeanString",)), ("core::hash::Hash", "LeanString", ()), ("core::borrow::Borrow", "LeanString", ("str",)),
             ("core::fmt::Display", "LeanString", ()), ("core::fmt::Debug", "LeanString", ()), ("core::ops::deref::Deref", "LeanString", ()),
@@ -135,6 +136,12 @@ def rule_C17(ctx, rule="C17-deleg"):
         need.append(("core::cmp::PartialEq", other, ("LeanString",)))
     for n in need:
         ctx.ob(rule, "%s for %s" % (n[0], n[1]), "present<%s>" % ",".join(n[2]), n in have, how="impl present", detail="impl %s<%s> for %s is missing (comparison/lookup in that direction no longer compiles or falls back to something else)" % (n[0], ",".join(n[2]), n[1]))
+    rule_views(ctx, rule)
+
+
+def rule_views(ctx, rule="C17-deleg"):
+    """as_str / as_bytes / len / is_empty are the storage layer's views; is_empty is len() == 0"""
+    F = ctx.F
     # the views themselves
     for fn, want in (("LeanString::as_str", "repr::Repr::as_str(p1.0)"), ("LeanString::as_bytes", "repr::Repr::as_bytes(p1.0)"), ("LeanString::len", "repr::Repr::len(p1.0)"),
                      ("LeanString::is_empty", "repr::Repr::is_empty(p1.0)"), ("repr::Repr::as_str", "core::str::converts::from_utf8_unchecked(repr::Repr::as_bytes(p1))")):
@@ -325,6 +332,10 @@ def rule_C16(ctx, rule="C16-decode"):
                 other = [g for g in gs if g[0] in ("cmp", "cmp2", "ne") and g not in cond]
                 okc = okc and not other
             ctx.ob(rule, b.path, "replacement-iff-invalid-nonempty", okc, how="push(U+FFFD) exactly on the edge !chunk.invalid().is_empty()", detail="replacement character logic: %s" % why)
+            # the result is the string the chunks were appended to - on every path (a fast path that
+            # returns something built from one chunk's valid part skips the replacement logic)
+            rds = ret_defs(b)
+            ctx.ob(rule, b.path, "result=accumulator", len(ps) == 1 and rds == [ps[0].desc(0)], how="returns the string every chunk was appended to (%s)" % (rds[:1]), detail="from_utf8_lossy can return %s; the appends go to %s" % (rds, [st.desc(0) for st in ps]))
             # the push of the replacement comes after the valid part of the same chunk
             if ps and pc:
                 ctx.ob(rule, b.path, "order", ps[0].body is pc[0].body and ps[0].body.dominates(ps[0].bb, pc[0].bb), how="valid part appended before the replacement", detail="replacement pushed before the chunk's valid part")
@@ -346,6 +357,9 @@ def rule_C16(ctx, rule="C16-decode"):
         pc = inlined_sites(root, lambda nm: nm in ("LeanString::push", "LeanString::try_push"))
         okp = len(pc) == 1 and re.match(r"^ok\((core::result::Result::<T, E>::map_err\()?item\(%s\)" % DEC, pc[0].desc(1)) is not None
         ctx.ob(rule, b.path, "push(Ok(c))", okp, how="pushes every successfully decoded char unchanged", detail="push operand is %s" % [st.desc(1) for st in pc])
+        okd = [d for d in ret_defs(root) if d.startswith("core::result::Result::Ok{")]
+        if len(pc) == 1 and pc[0].chain[0][0] is root:
+            ctx.ob(rule, root.path, "result=accumulator", okd == ["core::result::Result::Ok{%s}" % pc[0].desc(0)], how="Ok carries the string every char was pushed to", detail="from_utf16 can return %s; the pushes go to %s" % (okd, pc[0].desc(0)))
         # Err(FromUtf16Error) on the first decoding error: an Err built under the Err arm of the decoded
         # item, `item.map_err(|_| FromUtf16Error)?`, or try_for_each over a closure that fails exactly
         # when the item is Err
@@ -379,11 +393,12 @@ def rule_C16(ctx, rule="C16-decode"):
     ctx.need(rule, "LeanString::from_utf16_lossy", "anchor", b is not None, "from_utf16_lossy not found")
     if b:
         ds = ret_defs(b)
-        ok = len(ds) == 1 and re.match(r"^core::iter::traits::iterator::Iterator::collect\(core::iter::traits::iterator::Iterator::map\(core::char::methods::<impl char>::decode_utf16\(core::iter::traits::iterator::Iterator::copied\(core::slice::<impl \[T\]>::iter\(p1\)\)\), LeanString::from_utf16_lossy::\{closure#0\}::None\{\}\)\)$", ds[0]) is not None
+        ok = len(ds) == 1 and re.match(r"^core::iter::traits::iterator::Iterator::collect\(core::iter::traits::iterator::Iterator::map\(core::char::methods::<impl char>::decode_utf16\(core::iter::traits::iterator::Iterator::copied\(core::slice::<impl \[T\]>::iter\(p1\)\)\), LeanString::from_utf16_lossy::\{closure#\d+\}::None\{\}\)\)$", ds[0]) is not None
         alt = len(ds) == 1 and "String::from_utf16_lossy(p1)" in ds[0]
-        ok = ok or (len(ds) == 1 and re.match(r"^<LeanString as core::iter::traits::collect::FromIterator<char>>::from_iter\(core::iter::traits::iterator::Iterator::map\(core::char::methods::<impl char>::decode_utf16\(core::iter::traits::iterator::Iterator::copied\(core::slice::<impl \[T\]>::iter\(p1\)\)\), LeanString::from_utf16_lossy::\{closure#0\}::None\{\}\)\)$", ds[0]) is not None)
+        ok = ok or (len(ds) == 1 and re.match(r"^<LeanString as core::iter::traits::collect::FromIterator<char>>::from_iter\(core::iter::traits::iterator::Iterator::map\(core::char::methods::<impl char>::decode_utf16\(core::iter::traits::iterator::Iterator::copied\(core::slice::<impl \[T\]>::iter\(p1\)\)\), LeanString::from_utf16_lossy::\{closure#\d+\}::None\{\}\)\)$", ds[0]) is not None)
         ctx.ob(rule, b.path, "decode.map(unwrap_or).collect", ok or alt, how="decode_utf16(buf.iter().copied()).map(closure).collect::<LeanString>()", detail="from_utf16_lossy returns %s" % ds)
-        c = F.bodies.get("LeanString::from_utf16_lossy::{closure#0}")
+        mc = re.search(r", (LeanString::from_utf16_lossy::\{closure#\d+\})::None\{\}\)\)$", ds[0]) if len(ds) == 1 else None
+        c = F.bodies.get(mc.group(1)) if mc else F.bodies.get("LeanString::from_utf16_lossy::{closure#0}")
         if c is None and len(ds) == 1:
             # a local fn item instead of a closure
             m2 = re.search(r"Iterator::map\(.*, fn:([^)]+)\)\)$", ds[0])
@@ -521,7 +536,7 @@ def rule_C15(ctx, rule="C15"):
         ds = ret_defs(b)
         import r_api
         uw, _pf = r_api.find_unwrap_helper(F)
-        ctx.ob(rule, b.path, "default", len(ds) == 1 and uw is not None and (ds[0] in ("%s(traits::ToLeanString::try_to_lean_string(p1))" % uw, "ok(traits::ToLeanString::try_to_lean_string(p1))") and [callee_name(t) for _, t in b.calls()] == ["traits::ToLeanString::try_to_lean_string", uw]), how="to_lean_string = try_to_lean_string().unwrap_with_msg()", detail="to_lean_string returns %s" % ds)
+        ctx.ob(rule, b.path, "default", len(ds) == 1 and (uw or _pf) is not None and (ds[0] in ("%s(traits::ToLeanString::try_to_lean_string(p1))" % uw, "ok(traits::ToLeanString::try_to_lean_string(p1))") and [callee_name(t) for _, t in b.calls()] in (["traits::ToLeanString::try_to_lean_string", uw], ["traits::ToLeanString::try_to_lean_string", _pf])), how="to_lean_string = try_to_lean_string().unwrap_with_msg()", detail="to_lean_string returns %s" % ds)
     # the String arm copies the String's text
     if b is not None:
         tb = F.bodies.get(key)
